@@ -23,7 +23,13 @@ In every family the clauses "constant images and infinite thresholds come back u
 bit for bit wherever the Lean condition `mustBeUnchanged` holds.  pewlib does not meet that for the mean
 filter on constant images whose window sums are inexact in the computing format: `known()` recognises
 exactly that signature (known finding C13-constant-image-rounding; bound and exactness test from the
-driver op `c13.constinfo`, theorems `rounded_mean_of_constant_within_bound` / `_exact`)."""
+driver op `c13.constinfo`, theorems `rounded_mean_of_constant_within_bound` / `_exact`).
+
+Further classes on top of the float stream machinery: `hdr` (spikes 1e8 .. 1e150 times the background; a replaced value is
+demanded to the rounding of the magnitude of the NEIGHBOURS that are averaged, Lean's `rabs` / `replBound`), `ints` (every
+integer dtype), `tie` (pixels exactly on the decision boundary where Lean's `meanDecisionExact` certifies that a float
+evaluation is exact), big-endian storage, and `history` cases (`steps`): several calls in one process on the same array
+object edited in place, on another array, on a view - each call judged like a single one (`evaluate_call`)."""
 import json
 import math
 import os
@@ -289,40 +295,69 @@ class C13(Prop):
     id = "C13"
     anchored = ["src/pewlib/process/filters.py", "src/pewlib/process/calc.py"]
     cases = {"quick": 380, "thorough": 8000}
-    rule = ("60%: 1-D (n = b..60) and 2-D (sides b..26) dyadic images: noise, ramps, plateaus, two-valued ties, constants, with isolated "
-            "spikes, spike clusters and constant regions; odd windows 3..9 per axis (equal or not, int or tuple), thresholds 0, "
-            "finite, inf; C/F/strided layouts, read-only or writeable; offsets 0/1000/2^20. 16%: float stream `fconst` - constant "
-            "images of non-dyadic doubles (k/3, k/10, k/1000, pi-like, large offsets, 1e-300..1e300, random) and of dyadic ones "
-            "(few bits: window sums exact; many bits: not), windows 3..13 (1-D) / 3..9 per axis (2-D), thresholds 0, 5e-324, 1e-300, "
-            "1e-16, ..., 1, 3, 1e6, 1e300, inf, both filters, dtypes float64 / float32 / integer, C/F/strided/reversed, read-only: the "
-            "input is demanded back bit for bit. 24%: float stream `fgen` - arbitrary doubles (Gaussian, uniform, log-normal, plateaus, "
-            "two-valued, ramps with noise; magnitudes 1e-120..1e120; spikes, clusters, constant regions), float32 and integer "
-            "dtypes: a pixel is undetermined only when its exact margin |x-centre| - t*spread (rationals from the driver) is within "
-            "the rounding bound of FloatTol (about (N+4)*2^-53*max|x|*(1+t)), otherwise its value is demanded; replaced values to "
-            "2(N+P+2)*2^-53*max|x| (mean) or exactly (median, real windows). non-trivial = at least one interior pixel is replaced, or a "
-            "border pixel is replaced, or the image is constant, or the threshold is 0/inf; distinct by canonical case hash. "
+    rule = ("32%: 1-D (n = b..60) and 2-D (sides b..max(26, 2b+3)) dyadic images: noise, ramps, plateaus, two-valued ties, constants, with "
+            "isolated spikes, spike clusters and constant regions; odd windows 3..15 (1-D) / 3..15 per axis with area < 64 (2-D; equal "
+            "or not, int or tuple), thresholds 0, finite, inf; C/F/strided layouts, read-only or writeable; offsets 0/1000/2^20. "
+            "16%: float stream `fconst` - constant images of non-dyadic doubles (k/3, k/10, k/1000, pi-like, large offsets, "
+            "1e-300..1e300, random) and of dyadic ones (few bits: window sums exact; many bits: not), windows 3..13 (1-D) / 3..9 per "
+            "axis (2-D), thresholds 0, 5e-324, 1e-300, 1e-16, ..., 1, 3, 1e6, 1e300, inf, both filters, dtypes float64 / float32 / integer, "
+            "C/F/strided/reversed, read-only: the input is demanded back bit for bit. 22%: float stream `fgen` - arbitrary doubles "
+            "(Gaussian, uniform, log-normal, plateaus, two-valued, ramps with noise; magnitudes 1e-120..1e120; spikes, clusters, "
+            "constant regions), float32 and integer dtypes: a pixel is undetermined only when its exact margin |x-centre| - t*spread "
+            "(rationals from the driver) is within the rounding bound of FloatTol, computed from the magnitudes the pixel's own window "
+            "holds (about (N+4)*2^-53*max|window|*(1+t)), otherwise its value is demanded; replaced values to Lean's replBound = "
+            "2(N+2)*2^-53*rabs, rabs = the mean MAGNITUDE OF THE NEIGHBOURS that are averaged (driver: the mean filter on the image of "
+            "absolute values), never the magnitude of the replaced pixel or of the image (mean), or exactly (median, windows without "
+            "rounded pad values). 10%: `hdr` - the float stream with isolated spikes and spike clusters 1e8..1e18 (15%: ..1e60, 15%: up "
+            "to |x| = 1e150) times the background (levels 1e-140..1e50; level+noise, zero-mean noise, log-normal, ramp, flat, zeros), both "
+            "signs, a quarter of the spikes on the border, 1-D and 2-D, both filters, float64 / float32 (|x| <= 1e18) / int64 / int32. "
+            "8%: `ints` - every integer dtype (uint8/16/32/64, int8/16/32/64), values low in the dtype's range (pixels below their "
+            "window's median / mean), high in it, over the whole range (|x| <= 2^46), counts with ties, signed; spikes to the ends of "
+            "the range: decisions and replacements evaluated exactly on the integer values. 7%: `history` - 2-3 calls in one process: "
+            "the same array object again after in-place edits (pixels set, region overwritten, whole buffer shifted, another frame "
+            "copied in) with the same / another threshold, block, filter; another array of the same shape in between; a view of the "
+            "previous array; every call judged against the Lean specification of the contents at the time of the call. 5%: `tie` - "
+            "mean filter, a planted window whose statistics are all exactly representable and whose centre is exactly on the decision "
+            "boundary |x-m| = t*s (kept: 'more than'), or one step inside / outside; Lean's meanDecisionExact certifies per pixel that "
+            "every float evaluation takes the exact decision (such pixels are demanded in every stream). One case in eight (all "
+            "streams but the large class) is stored big-endian. non-trivial = at least one interior pixel is replaced, or a border "
+            "pixel is replaced, or the image is constant, or the threshold is 0/inf, or a pixel is exactly on the boundary; distinct by "
+            "canonical case hash. "
             "Large class (targeted, data drawn from VERIF_SEED): 2-D images above 2^16 (quick and thorough) and above 2^17 "
             "(thorough) elements, 1-D signals above 2^16 / 2^17 samples, both filters, windows 3..7, integer noise / gradient / "
             "steps / banded-amplitude data (bell-shaped or uniform noise) with many spikes, thresholds 1.2..3 (many pixels a few units from the "
             "threshold, none within the float tolerance by construction of the data); 2 per quick run, 9 per thorough run; "
             "mechanism model compared at every pixel (left out for the second quick case and the 1-D 2^17 case); specification at "
             "every pixel where mechanism and implementation differ, every changed pixel (capped), a random sample and full "
-            "rows/columns/segments (see module docstring)")
+            "rows/columns/segments (see module docstring). Targeted: the repo's own examples, single windows, the kernel-evaluated "
+            "witnesses, 14 high-dynamic-range inputs (3e17 / 2.5e13 / 1e17 glitches on a background near 1, -1e150 on zeros, 1e-83 on "
+            "1e-100), 4 histories")
     trusted = ["np.pad(mode='mean'|'median', stat_length), np.mean/np.std(where=), np.median, np.where, as_strided as documented; "
                "dyadic streams: float evaluation of |x-m| > t*s is within 1e-9 relative (+1e-12*max|x|*(1+t) absolute) of the exact "
                "value: pixels whose exact margin is smaller may take either value; replacement values compared at 1e-9 relative",
                "float streams: IEEE arithmetic follows the standard model |fl(a op b) - (a op b)| <= u*|a op b| (u = 2^-53, float32 "
                "2^-24) with correctly rounded sqrt, and NumPy sums a window with at most N-1 rounded additions in some order; the "
-               "bounds of FloatTol (doubled) follow from that; the bound inside which a changed constant image counts as the known "
-               "finding is Lean's constBound (theorem rounded_mean_of_constant_within_bound) with depth h0+h1+b0*b1",
+               "bounds of FloatTol (doubled) follow from that, every quantity in them being a statistic of the pixel's own window "
+               "(for the median filter: of the windows of its window's pixels); the bound on a replaced value is Lean's replBound "
+               "(theorems rounded_window_within_bound, rounded_mean_any_order: any order of summation, pad values included); x -> "
+               "x(1+-4u) is increasing, so the median of a window whose pad values carry one relative rounding moves by at most 4u "
+               "relative to itself; the bound inside which a changed constant image counts as the known finding is Lean's "
+               "constBound (theorem rounded_mean_of_constant_within_bound) with depth h0+h1+b0*b1",
+               "exact decisions: where Lean's meanDecisionExact holds (all partial sums in any order, means, deviations, squares, "
+               "variance, its root and t times it are numbers of the computing format) correctly rounded IEEE operations return "
+               "every intermediate result unchanged, so the float decision is the exact one - demanded also exactly on the boundary",
+               "histories: the harness holds the array objects and edits them in place between the calls; object identity, views "
+               "and in-place edits are harness-level facts (the Lean model is a function of the contents)",
                "the binary64 mechanism Pew.Filters.F64 (NumPy's order of evaluation) is compared with pewlib bit for bit and the "
                "agreement reported as a feature (f64-mechanism:bit-equal); it is not part of the verdict - the property fixes no order"]
     assumptions = ["odd windows; image at least one window per axis; no NaN; |x| <= 1e300 in constant images and <= 1e150 otherwise "
-                   "(no overflow of a window sum, of the sum of two pad values in np.median, or of a squared deviation)",
+                   "(float32 high-dynamic-range images: <= 1e18; no overflow of a window sum, of the sum of two pad values in "
+                   "np.median, or of a squared deviation)",
                    "dyadic streams: float64 images with dyadic values (window sums are exact)",
                    "float32 images: thresholds representable in float32 (NumPy converts the Python float to the array dtype); "
                    "other thresholds are tolerated through the bound, not demanded",
-                   "integer images: np.pad rounds the pad values (half to even) to the integer dtype; the mechanism model does the "
+                   "integer images: |pixel| <= 2^46 (every window sum is exact in binary64 and every pixel converts exactly to "
+                   "float64); np.pad rounds the pad values (half to even) to the integer dtype; the mechanism model does the "
                    "same (pad statistic rint o mean / rint o median, theorems interior_any_pad_*)"]
 
     # ------------------------------------------------------------------ generation
@@ -469,14 +504,19 @@ class C13(Prop):
             return self.gen_tie(rng)
         ndim = rng.choice([1, 2, 2])
         kind = rng.choice(["mean", "median"])
-        if rng.random() < 0.5:
-            b = rng.choice([3, 3, 5, 5, 7, 9])
-            block = [b] * ndim
+        if ndim == 1:
+            block = [rng.choice([3, 3, 5, 5, 7, 9, 11, 13, 15])]
         else:
-            block = [rng.choice([3, 5, 7, 9]) for _ in range(ndim)]
+            while True:  # windows up to 15 along one axis; the area is kept below 64 (cost of the exact 2-D median specification)
+                if rng.random() < 0.5:
+                    block = [rng.choice([3, 3, 5, 5, 7])] * 2
+                else:
+                    block = [rng.choice([3, 5, 7, 9, 11, 13, 15]) for _ in range(2)]
+                if block[0] * block[1] < 64:
+                    break
         shape = []
         for b in block:
-            hi = 60 if ndim == 1 else 26
+            hi = 60 if ndim == 1 else max(26, 2 * b + 3)
             r = rng.random()
             if r < 0.12:
                 s = b  # exactly one window
@@ -517,6 +557,13 @@ class C13(Prop):
             else:
                 shape.append(rng.randint(min(hi, 2 * b + 1), max(hi, 2 * b + 3)))
         return block, shape
+
+    @staticmethod
+    def with_interior(rng, shape, block, prob=0.8):
+        """with probability `prob`: every axis long enough for pixels a full window from both borders"""
+        if rng.random() < prob:
+            return [max(s_, 2 * b + 1 + rng.randint(0, 3)) for s_, b in zip(shape, block)]
+        return shape
 
     def gen_const_value(self, rng):
         cls = rng.choice(["third", "tenth", "milli", "pi-like", "offset", "tiny", "underflow-sq", "small", "huge", "random", "random",
@@ -654,6 +701,7 @@ class C13(Prop):
         ndim = rng.choice([1, 2, 2])
         kind = rng.choice(["mean", "mean", "median"])
         block, shape = self.gen_geometry(rng, ndim, [3, 3, 5, 5, 7, 9, 11] if ndim == 1 else [3, 3, 5, 7], 40 if ndim == 1 else 15)
+        shape = self.with_interior(rng, shape, block)
         dtype = rng.choice(["float64"] * 6 + ["float32"] * 2 + ["int64", "int32"])
         n = int(np.prod(shape))
         idx = np.indices(shape)
@@ -757,8 +805,9 @@ class C13(Prop):
                 yield {**base, "kind": kind, "shape": [60], "fdata": [hexf(v) for v in sig], "block": [blk], "threshold": hexf(thr)}
             for blk, thr in (([3, 5], 3.0), ([3, 3], 1.0)):
                 yield {**base, "kind": kind, "shape": [19, 23], "fdata": [hexf(v) for v in flat], "block": blk, "threshold": hexf(thr)}
-            yield {**base, "kind": kind, "shape": [9], "fdata": [hexf(v) for v in (1.0, 1.25, 1.0, 1.5, 3.0e17, 1.25, 1.0, 1.5, 1.0)],
-                   "block": [5], "threshold": hexf(3.0), "gen": ["targeted-float", "hdr", "witness"]}
+            # the window 1, 1.5, 3e17, 1.25, 1 of the witness theorem, at a pixel a full window from either end
+            yield {**base, "kind": kind, "shape": [17], "block": [5], "threshold": hexf(3.0), "gen": ["targeted-float", "hdr", "witness"],
+                   "fdata": [hexf(v) for v in (1.0, 1.25, 1.0, 1.5, 1.25, 1.0, 1.25, 1.0, 1.5, 3.0e17, 1.25, 1.0, 1.5, 1.0, 1.25, 1.0, 1.5)]}
             z = [0.0] * 49
             z[24] = -1e150
             yield {**base, "kind": kind, "shape": [7, 7], "fdata": [hexf(v) for v in z], "block": [3, 3], "threshold": hexf(1.0)}
@@ -811,6 +860,7 @@ class C13(Prop):
         ndim = rng.choice([1, 2, 2])
         kind = rng.choice(["mean", "median", "median"])
         block, shape = self.gen_geometry(rng, ndim, [3, 3, 5, 5, 7, 9], 40 if ndim == 1 else 16)
+        shape = self.with_interior(rng, shape, block)
         dtype = rng.choice(INT_DTYPES)
         lo, hi = int_range(dtype)
         n = int(np.prod(shape))
@@ -864,7 +914,7 @@ class C13(Prop):
         dtype = rng.choice(["float64"] * 5 + ["float32", "uint16", "int32"])
         isint = dtype in INT_DTYPES
         wins = [3, 5, 5, 7] if ndim == 1 else [3, 3, 5]
-        shape = [rng.randint(16, 40)] if ndim == 1 else [rng.randint(8, 14), rng.randint(8, 14)]
+        shape = [rng.randint(16, 40)] if ndim == 1 else [rng.randint(11, 16), rng.randint(11, 16)]
         n = int(np.prod(shape))
 
         def frame():
